@@ -115,6 +115,7 @@ def parseAct (toks : List String) : Option SAct :=
   | ["revoke", t] => (parseIdx 't' t).map .revoke
   | ["run", s] => (parseRef s).map .run
   | ["flush"] => some .flush
+  | ["drun", s] => (parseRef s).map (fun r => .direct (.run r))
   | ["dsysevent", s, ty, pid] => do pure (.direct (.sysEvent (← parseRef s) (← ty.toNat?) (← pid.toNat?)))
   | ["dbroadcast", ty, pid] => do pure (.direct (.broadcast (← ty.toNat?) (← pid.toNat?)))
   | ["dentevent", e, ty, pid] => do pure (.direct (.entityEvent (← parseRef e) (← ty.toNat?) (← pid.toNat?)))
